@@ -24,6 +24,7 @@ fn exec_line(line: &str) -> String {
         Some("world") => world::exec(line),
         Some("poll") => poller::exec(&toks, line).unwrap_or_else(|| "bad-op".into()),
         Some("slx") => ra::exec_slx(&toks),
+        Some("slaba") => ra::exec_slaba(),
         Some("upd") => daemon::exec_upd(line),
         _ => "bad-op".into(),
     }
@@ -88,6 +89,7 @@ fn main() {
             let mut rng = rng::Rng::new(seed ^ 0xc01);
             for _ in 0..count { emit(world::gen_world(&mut rng)); }
         }
+        Some("slabagen") => { emit("slaba".to_string()); }
         Some("slxgen") => {
             // one full exhaustion of the retry budget + short scripted runs (more with `all`)
             let mut v = vec!["slx 2 1000", "slx 2 1", "slx 3 5", "slx 0 7", "slx 65534 1", "slx 4 1"];
